@@ -182,3 +182,61 @@ Proof.
   split; [vm_compute; reflexivity|]. split; [vm_compute; reflexivity|].
   split; vm_compute; reflexivity.
 Qed.
+
+(** *** The ALGORITHM the code runs (PruneAlgo.v): deleteVersionsTo / deleteVersion /
+    traverseOrphans over two node iterators, GetNode / GetRoot fall-backs, the root-key cache and
+    the write batch whose flushes are given by an arbitrary schedule.  For every reachable
+    in-contract state, every schedule and both ways of indexing it: in EVERY state the disk goes
+    through while versions <= n are deleted, every retained version loads back node for node
+    (hashes included); and the final store is the physical store of the retained versions.
+    The alternative "collision" is an explicit pair of different inputs with the same hash. *)
+From IAVL Require Import Ics23Facts Store StoreFacts PruneAlgo PruneAlgoFacts1 PruneAlgoFacts2 PruneAlgoFacts5 PruneAlgoFacts6 PruneAlgoFacts7 PruneAlgoFacts8 PruneAlgoFacts9 PruneAlgoFacts10 PruneAlgoFacts11 PruneAlgoFacts12 PruneAlgoFacts13 PruneAlgoFacts.
+Local Open Scope Z_scope.
+
+Theorem C04_physical_deletion_safe_at_every_moment :
+  forall (H : bytes -> bytes), (forall x, length (H x) = 32%nat) ->
+  forall (iv : Z) (b : bool) (ops : list op) (r : list Z) (sched : list bool) (eff : bool) (n : Z),
+    init_ok iv b -> run_ok H (init_state iv b) ops ->
+    let s := fst (run H (init_state iv b) ops) in
+    forest_bounds (forest s) -> rekey_ok r (forest s) -> n < version s -> n < latest_version s ->
+    (exists disks,
+       prune_forest_disks H eff r (forest s) sched n = POk disks /\
+       Forall (fun d => readable H d (filter (fun p => n <? fst p) (forest s)) = true) disks)
+    \/ collision H.
+Proof. exact PA_prune_safe_reachable. Qed.
+Print Assumptions C04_physical_deletion_safe_at_every_moment.
+
+Theorem C04_physical_deletion_refines_spec :
+  forall (H : bytes -> bytes), (forall x, length (H x) = 32%nat) ->
+  forall (iv : Z) (b : bool) (ops : list op) (r : list Z) (sched : list bool) (eff : bool) (n : Z),
+    init_ok iv b -> run_ok H (init_state iv b) ops ->
+    let s := fst (run H (init_state iv b) ops) in
+    forest_bounds (forest s) -> rekey_ok r (forest s) -> n < version s -> n < latest_version s ->
+    (exists st' log fl,
+       prune_forest H eff r (forest s) sched n = POk (st', log, fl) /\
+       let f' := filter (fun p => n <? fst p) (forest s) in
+       st' = phys_of (rekeyed st') f' /\ rekey_ok (rekeyed st') f' /\
+       norm_store st' = expected_store f')
+    \/ collision H.
+Proof. exact PA_prune_refines_reachable. Qed.
+Print Assumptions C04_physical_deletion_refines_spec.
+
+(** the physical store of a reachable state reads every retained version back *)
+Theorem C04_physical_store_readable :
+  forall (H : bytes -> bytes) (s : mstate) (r : list Z),
+    store_ok H s -> rekey_ok r (forest s) ->
+    readable H (phys_of r (forest s)) (forest s) = true.
+Proof. exact PA_phys_readable. Qed.
+Print Assumptions C04_physical_deletion_refines_spec.
+
+(** why the ORDER of the two re-key writes matters: with [del (v,1)] before [set (v,0)] and a
+    flush between them some disk state cannot read a retained version (what a seeded reordering
+    looks like); the faithful order on the same input is safe *)
+Theorem C04_rekey_order_matters_refuted : ltac:(let t := type of rekey_order_matters_refuted in exact t).
+Proof. exact rekey_order_matters_refuted. Qed.
+Print Assumptions C04_rekey_order_matters_refuted.
+
+(** the hypotheses are satisfiable: five SHA-256 versions, a first deletion re-keys root (1,1),
+    the second starts from r = [1] *)
+Example C04_physical_example : ltac:(let t := type of pa_second_deletion in exact t).
+Proof. exact pa_second_deletion. Qed.
